@@ -19,8 +19,11 @@ import (
 // without error (this keeps the probe honest: its programs are rejected for the deep difference
 // and for nothing else). The second result describes the variant.
 func NearMiss(intn func(int) int, control bool) (string, string) {
-	if intn(3) == 0 {
+	switch intn(4) {
+	case 0:
 		return nearMissRepeated(intn, control)
+	case 1:
+		return nearMissLabelSet(intn, control)
 	}
 	m := []string{"", "lin "}[intn(2)]
 	lbls := [][2]string{{"more", "done"}, {"s", "z"}, {"a", "b"}}[intn(3)]
@@ -216,4 +219,43 @@ func nearMissRepeated(intn func(int) int, control bool) (string, string) {
 		connect(w, m, conn, "P1", "P2", "eat")
 	}
 	return sb.String(), fmt.Sprintf("repeated-name row=%d flip=%v conn=%d mode=%q control=%v", k, flip, conn, m, control)
+}
+
+// nearMissLabelSet: two choices that differ only in their SET of labels (one has a label the
+// other lacks). The side that knows the extra label uses it; the other side has no branch for it.
+func nearMissLabelSet(intn func(int) int, control bool) (string, string) {
+	m := []string{"", "lin "}[intn(2)]
+	neg := intn(2) == 1
+	conn := intn(4)
+	wide, narrow := "{a : 1, b : 1}", "{a : 1}"
+	if control {
+		narrow = wide
+	}
+	var sb strings.Builder
+	w := func(f string, a ...any) { fmt.Fprintf(&sb, f+"\n", a...) }
+	w("let mkU() : %s1 = close self", m)
+	if !neg {
+		// the value selects b; the consumer only knows a (control: knows both)
+		w("type A = %s+%s", m, wide)
+		w("type B = %s+%s", m, narrow)
+		w("let mkV() : %sA = u <- new mkU(); print p; self.b<u>", m)
+		if control {
+			w("let eat(x : %sB) : %s1 = case x (a<y> => print q; wait y; close self | b<y> => print u; wait y; close self)", m, m)
+		} else {
+			w("let eat(x : %sB) : %s1 = case x (a<y> => print q; wait y; close self)", m, m)
+		}
+		connect(w, m, conn, "A", "B", "eat")
+		return sb.String(), fmt.Sprintf("label-set positive conn=%d mode=%q control=%v", conn, m, control)
+	}
+	// the server only offers a; the client believes it also offers b and asks for it
+	w("type A = %s&%s", m, narrow)
+	w("type B = %s&%s", m, wide)
+	if control {
+		w("let mkV() : %sA = case self (a<z> => print p; close self | b<z> => print u; close self)", m)
+	} else {
+		w("let mkV() : %sA = case self (a<z> => print p; close self)", m)
+	}
+	w("let eat(x : %sB) : %s1 = k : %s1 <- new x.b<self>; print q; wait k; close self", m, m, m)
+	connect(w, m, conn, "A", "B", "eat")
+	return sb.String(), fmt.Sprintf("label-set negative conn=%d mode=%q control=%v", conn, m, control)
 }
